@@ -27,6 +27,7 @@ import (
 	"github.com/idena-network/idena-go/vm/embedded"
 	"github.com/idena-network/idena-go/vm/wasm"
 	"github.com/idena-network/idena-go/vm/wasm/testdata"
+	wasmlib "github.com/idena-network/idena-wasm-binding/lib"
 	wasmmodels "github.com/idena-network/idena-wasm-binding/lib/protobuf"
 )
 
@@ -48,7 +49,38 @@ const (
 	// moves coins, so without it "a contract can never send more than it holds" would not be
 	// exercised for WASM at all.
 	kSpender = "wasm:spender"
+	// not a bundled contract either: a 215-byte hand-assembled module (see c15DeployerHex) that forwards
+	// its arguments to the host's create_deploy_contract_promise. The bundled contracts cannot reach a
+	// SUCCESSFUL sub-deployment on a chain (test-cases grants its sub-deployment 1e6 WASM gas, a
+	// deployment costs > 3e6; the shared-fungible-token wallet has no way to mint tokens), so without
+	// it "a contract created by another contract" would only ever be observed failing.
+	kDeployer = "wasm:deployer"
 )
+
+// c15DeployerHex is the binary of
+//
+//	(module
+//	  (import "env" "create_deploy_contract_promise" (func $deploy (param i32 i32 i32 i32 i32) (result i32)))
+//	                                        ;; (code region, packed-arguments region, nonce region, amount region, gas limit)
+//	  (memory (export "memory") 4)
+//	  (global $heap (mut i32) (i32.const 8192))
+//	  (func (export "allocate") (param $size i32) (result i32) (local $r i32)     ;; bump allocator of {offset,capacity,length} regions,
+//	    global.get $heap  local.set $r                                             ;; sizes rounded up to 4 (the host reads regions at aligned addresses)
+//	    (i32.store          (local.get $r) (i32.add (local.get $r) (i32.const 12)))
+//	    (i32.store offset=4 (local.get $r) (local.get $size))
+//	    (i32.store offset=8 (local.get $r) (i32.const 0))
+//	    (global.set $heap (i32.add (i32.add (local.get $r) (i32.const 12)) (i32.and (i32.add (local.get $size) (i32.const 3)) (i32.const -4))))
+//	    local.get $r)
+//	  (func (export "deploy"))
+//	  (func (export "make") (param $code i32) (param $args i32) (param $nonce i32) (param $amount i32) (param $gas i32)
+//	    (drop (call $deploy (local.get $code) (local.get $args) (local.get $nonce) (local.get $amount)
+//	                        (i32.load (i32.load (local.get $gas)))))))          ;; the gas limit is a plain i32: first 4 bytes (LE) of the 5th argument
+//
+// `make(code, packedArgs, nonce, amount, gas)` asks the host to deploy `code` as a new contract with
+// `amount` of the deployer's coins and `gas` units of WASM gas. The new contract lives at
+// wasm.ComputeContractAddr(code, packedArgs, nonce) - an address anybody can compute and send coins
+// to beforehand. A sub-deployment that fails (too little gas, address taken) does not fail the call.
+const c15DeployerHex = "0061736d01000000011a0460057f7f7f7f7f017f60017f017f60000060057f7f7f7f7f0002260103656e761e6372656174655f6465706c6f795f636f6e74726163745f70726f6d697365000003040301020305030100040608017f014180c0000b072504066d656d6f7279020008616c6c6f636174650001066465706c6f790002046d616b6500030a4d033201017f2300210120012001410c6a36020020012000360204200141003602082001410c6a200041036a417c716a240020010b02000b15002000200120022003200428020028020010001a0b"
 
 // c15SpenderHex is the binary of
 //
@@ -75,6 +107,9 @@ const c15SpenderHex = "0061736d01000000011b0660027f7f0060017f0060017f017f6000006
 var c15EmbeddedKinds = []string{kTimeLock, kMultisig, kOV, kOL, kROL}
 var c15WasmKinds = []string{kErc20, kInc, kSum, kSft, kCases, kSpender}
 
+// (kDeployer is not part of the rotation of kinds: deployer contracts get a turn of their own per step, drawn from a
+// PRNG stream of their own - C15Gen.RD -, so that the traffic of the other kinds does not depend on them)
+
 var c15CodeHash = map[string]common.Hash{
 	kTimeLock: embedded.TimeLockContract, kMultisig: embedded.MultisigContract, kOV: embedded.OracleVotingContract,
 	kOL: embedded.OracleLockContract, kROL: embedded.RefundableOracleLockContract,
@@ -93,6 +128,7 @@ var c15Methods = map[string][]string{
 	kSft:      {"transferTo", "getBalance", "receive", "_addBalance"},
 	kCases:    {"test", "_deployCallback"},
 	kSpender:  {"send", "burn"},
+	kDeployer: {"make"},
 }
 
 var c15KnownMethod = map[string]bool{}
@@ -115,6 +151,7 @@ func init() {
 	load(kSft, testdata.SharedFungibleToken)
 	load(kCases, testdata.TestCases)
 	load(kSpender, func() ([]byte, error) { return hex.DecodeString(c15SpenderHex) })
+	load(kDeployer, func() ([]byte, error) { return hex.DecodeString(c15DeployerHex) })
 	for _, l := range c15Methods {
 		for _, m := range l {
 			c15KnownMethod[m] = true
@@ -193,6 +230,18 @@ type C15Contract struct {
 	Proofs     int         // OV: proofs sent in the current round
 	PropTries  int         // Multisig
 	Allow      [][2]*Actor // erc20: (holder, spender) pairs with an approval
+	Plan       *c15SubPlan // deployer: the sub-deployment the next `make` call asks for
+}
+
+// c15SubPlan is a sub-deployment a deployer contract is going to ask for: the address of the new
+// contract follows from (code, packed arguments, nonce) alone, so it is known - and can be sent
+// coins - blocks before the call that creates the contract.
+type c15SubPlan struct {
+	Kind   string // contract type of the code
+	Packed []byte // argument vector in the host's wire format
+	Nonce  []byte
+	Addr   common.Address
+	Funded bool // an ordinary SendTx to Addr went to the chain in an EARLIER step
 }
 
 // C15Action is one generated contract transaction with what the harness knows about it.
@@ -244,6 +293,9 @@ type C15Gen struct {
 	usedS      map[common.Address]bool
 	jumped     bool
 	plain      []*types.Transaction // non-contract txs of the current batch (funding of contract addresses)
+	// sub-deployments: deployer contracts (kDeployer) and the stream their turns are drawn from (nil = none)
+	RD        *verifutil.Rng
+	Deployers []*C15Contract
 }
 
 func NewC15Gen(w *World, twin *Replica, r *verifutil.Rng, kinds []string) *C15Gen {
@@ -795,7 +847,7 @@ func (g *C15Gen) newDeploy(kind string) *cand {
 		}
 		c.Owner = g.rich(Dna(3500))
 		switch kind {
-		case kSpender:
+		case kSpender, kDeployer:
 			cd.amount = Dna(int64(r.Range(1, 40))) // the pay amount is what the contract will have to spend
 		case kSum:
 			if l := g.live(kInc); len(l) > 0 {
@@ -904,6 +956,37 @@ func (g *C15Gen) fundContract(c *C15Contract, amount *big.Int) {
 	to := c.Addr
 	g.plain = append(g.plain, g.W.Tx(from, types.SendTx, &to, amount, nil))
 }
+
+// fundAddr adds a plain SendTx to an arbitrary address (e.g. one that is going to become a contract) to the batch.
+func (g *C15Gen) fundAddr(to common.Address, amount *big.Int) bool {
+	from := g.rich(new(big.Int).Add(amount, Dna(50)))
+	if from == nil {
+		return false
+	}
+	g.usedS[from.Addr] = true
+	g.plain = append(g.plain, g.W.Tx(from, types.SendTx, &to, amount, nil))
+	return true
+}
+
+// newSubPlan draws what a deployer contract creates next and - in half of the cases - sends coins to the
+// address of the future contract right away (a plain SendTx of this batch, i.e. in the chain at least one
+// block before the `make` call is evaluated).
+func (g *C15Gen) newSubPlan(c *C15Contract) *c15SubPlan {
+	r := g.R
+	p := &c15SubPlan{Kind: []string{kSpender, kSpender, kSpender, kDeployer, kDeployer, kInc, kInc, kSft}[r.Intn(8)], Nonce: r.Bytes(r.Range(1, 6))}
+	var args [][]byte
+	if p.Kind == kSft {
+		args = [][]byte{g.someAddr().Bytes(), g.someAddr().Bytes()}
+	}
+	p.Packed = wasmlib.PackArguments(args)
+	p.Addr = wasm.ComputeContractAddr(c15WasmCode[p.Kind], p.Packed, p.Nonce)
+	if r.Bool() && g.st().GetCodeHash(p.Addr) == nil {
+		p.Funded = g.fundAddr(p.Addr, Dna(int64(r.Range(1, 60))))
+	}
+	return p
+}
+
+func u32le(v uint32) []byte { return []byte{byte(v), byte(v >> 8), byte(v >> 16), byte(v >> 24)} }
 
 func (g *C15Gen) dust() *big.Int { return new(big.Int).Mul(g.fpg(), big.NewInt(100)) }
 
@@ -1219,6 +1302,33 @@ func (g *C15Gen) candidates(c *C15Contract) []*cand {
 			}
 			add("Call", "send", from, pay, dest.Bytes(), amt.Bytes())
 		}
+	case kDeployer:
+		// every turn uses the plan drawn (and possibly pre-funded) in the previous turn and draws the next one
+		p := c.Plan
+		c.Plan = g.newSubPlan(c)
+		if p == nil || g.st().GetCodeHash(p.Addr) != nil {
+			break
+		}
+		pay := big.NewInt(0)
+		if r.Intn(3) == 0 || bal.Sign() == 0 {
+			pay = Dna(int64(r.Range(1, 9)))
+		}
+		have := new(big.Int).Add(bal, pay)
+		amt := part(have, r).Bytes() // what the new contract is endowed with
+		switch r.Intn(8) {
+		case 0:
+			amt = new(big.Int).Add(have, big.NewInt(1)).Bytes() // one unit more than the deployer will hold
+		case 1, 2:
+			amt = []byte{0} // nothing
+		}
+		gas := uint32(r.Range(3200000, 9000000)) // a deployment costs a little over 3e6 units of WASM gas
+		switch r.Intn(10) {
+		case 0:
+			gas = uint32(r.Range(1, 3000000)) // the sub-deployment runs out of gas, the call goes on
+		case 1:
+			gas = 0xffffffff // more than the transaction has
+		}
+		add("Call", "make", g.rich(new(big.Int).Add(pay, Dna(400))), pay, c15WasmCode[p.Kind], p.Packed, p.Nonce, amt, u32le(gas))
 	case kCases:
 		sub := []string{kInc, kInc, kSum, kErc20}[r.Intn(4)]
 		pay := big.NewInt(0)
@@ -1568,6 +1678,20 @@ func (g *C15Gen) build(cd *cand) *C15Action {
 			cd.c.Addr = ContractAddr(cd.from.Addr, a.Tx)
 		}
 	case "Call":
+		if cd.kind == kDeployer {
+			// EMPTY byte strings are not passed through the deployer in the generated traffic: the Rust runtime hands an
+			// empty slice to the Go host callbacks as (ptr = 0x1, len = 0) in a pointer-typed parameter, and the Go runtime
+			// kills the process ("invalid pointer found on stack") when the goroutine's stack has to grow while such a
+			// callback frame is live. That is a finding of its own (TestVerifC15EmptySliceCallback reproduces it in a
+			// child process); here it would only end the shard at a point that depends on the stack's history.
+			args := append([][]byte{}, cd.args...)
+			for i := range args {
+				if len(args[i]) == 0 {
+					args[i] = []byte{0}
+				}
+			}
+			cd.args, a.Args = args, args
+		}
 		att := attachments.CreateCallContractAttachment(cd.method, cd.args...)
 		pl, _ := att.ToBytes()
 		to := cd.c.Addr
@@ -1594,12 +1718,14 @@ func (g *C15Gen) NextBatch() (acts []*C15Action, multis []*C15Multi, plain []*ty
 	g.usedC, g.usedS, g.plain = map[*C15Contract]bool{}, map[common.Address]bool{}, nil
 	defer func() { plain = g.plain }()
 	// retire instances that never made it or were terminated
-	for _, c := range g.Contracts {
-		if !c.Dead && g.st().GetCodeHash(c.Addr) == nil && (c.Deployed || g.Step-c.Born > 3) {
-			c.Dead = true
-		}
-		if !c.Dead && !c.Deployed && g.st().GetCodeHash(c.Addr) != nil {
-			c.Deployed = true
+	for _, l := range [][]*C15Contract{g.Contracts, g.Deployers} {
+		for _, c := range l {
+			if !c.Dead && g.st().GetCodeHash(c.Addr) == nil && (c.Deployed || g.Step-c.Born > 3) {
+				c.Dead = true
+			}
+			if !c.Dead && !c.Deployed && g.st().GetCodeHash(c.Addr) != nil {
+				c.Deployed = true
+			}
 		}
 	}
 	finish := func(cd *cand, submitPct int) {
@@ -1730,6 +1856,36 @@ func (g *C15Gen) NextBatch() (acts []*C15Action, multis []*C15Multi, plain []*ty
 		}
 		g.usedC[c] = true
 		finish(cds[r.Intn(len(cds))], 85)
+	}
+	// 5. sub-deployments: in two of three steps a deployer contract gets a turn (or one is deployed: two are kept
+	// alive), signed by actors the rest of the batch did not use
+	if g.RD != nil && g.hasKind(kInc) && g.RD.Intn(3) != 0 {
+		saved := g.R
+		g.R, r = g.RD, g.RD
+		var live []*C15Contract
+		coming := 0
+		for _, c := range g.Deployers {
+			if g.alive(c) {
+				live = append(live, c)
+			} else if !c.Dead {
+				coming++
+			}
+		}
+		if len(live)+coming < 2 && (len(live) == 0 || r.Intn(3) == 0) {
+			if cd := g.newDeploy(kDeployer); cd != nil && !g.usedS[cd.from.Addr] {
+				before := len(acts)
+				finish(cd, 100)
+				if len(acts) > before && acts[len(acts)-1].Submit && acts[len(acts)-1].TxKind == "Deploy" {
+					g.Deployers = append(g.Deployers, cd.c)
+				}
+			}
+		} else if len(live) > 0 {
+			c := live[r.Intn(len(live))]
+			if cds := g.candidates(c); len(cds) > 0 {
+				finish(cds[r.Intn(len(cds))], 85)
+			}
+		}
+		g.R, r = saved, saved
 	}
 	return
 }
